@@ -234,6 +234,74 @@ def run(ctx):
     slice_rule(ctx)
     varint_rule(ctx)
     fixedbuf_rule(ctx)
+    duration_rule(ctx)
+
+
+def duration_rule(ctx):
+    """A duration is three little-endian u32 in the order months, days, milliseconds (spec).  As a map / struct, the
+    key that goes with each 4-byte chunk is decided by what is left of the 12 bytes (12 -> months, 8 -> days, 4 ->
+    milliseconds), and each key presents itself as that word - or, to a visitor that asks for an index, as its position
+    in the spec's order."""
+    f = ctx.f
+    D = 'de::deserializer::types::duration::'
+    want_str = {'Months': 'months', 'Days': 'days', 'Milliseconds': 'milliseconds'}
+    want_idx = {'Months': 0, 'Days': 1, 'Milliseconds': 2}
+    n = 0
+    for b in f.body_list:
+        if b.j['kind'] == 'closure' or not fn_label(b).startswith('<' + D + 'DurationFieldNameDeserializer as '):
+            continue
+        if b.name not in ('deserialize_any', 'deserialize_u64', 'deserialize_identifier', 'deserialize_str'):
+            continue
+        ctx.touched(b)
+        got = {}
+        for r in enum_regions(b, b.local_ty(1)):
+            if len(r.variants) != 1:
+                continue
+            v = list(r.variants)[0]
+            for bb in sorted(r.blocks):
+                t = b.term(bb)
+                if t['k'] == 'call' and (t.get('callee') or '').startswith('serde_core::de::Visitor::visit_') and len(t['args']) > 1 and not b.is_cleanup(bb):
+                    o = origin(b, t['args'][1])
+                    got.setdefault(v, []).append((t['callee'].rsplit('::', 1)[1], sorted(o.consts(), key=str), bool(o.params())))
+        if not got:
+            continue      # forwards to another presentation (forward_to_deserialize_any)
+        ok = set(got) == set(want_str)
+        for v, calls in got.items():
+            for meth, cs, par in calls:
+                if par or len(cs) != 1:
+                    ok = False
+                elif meth in ('visit_str', 'visit_borrowed_str', 'visit_string'):
+                    ok = ok and cs[0] == want_str.get(v)
+                elif meth in ('visit_u64', 'visit_u32', 'visit_u8', 'visit_u16'):
+                    ok = ok and cs[0] == want_idx.get(v)
+                else:
+                    ok = False
+        n += 1
+        ctx.ob('DURATION', 'field-identifier/%s' % b.name, ok, short_loc(b.span),
+               'each duration field names itself by its spec word or spec position: %s' % {v: [(m, c) for m, c, _ in cs_] for v, cs_ in sorted(got.items())})
+    ctx.floor('DURATION', 'identifier presentations of the duration fields', n, 2)
+    # which key goes with which chunk: the switch on the remaining length
+    for b in f.body_list:
+        if b.j['kind'] == 'closure' or b.name != 'next_key_seed' or not fn_label(b).startswith('<' + D + 'DurationMapAndSeqAccess as '):
+            continue
+        ctx.touched(b)
+        m = {}
+        for bb in sorted(b.live_blocks()):
+            if b.term(bb)['k'] != 'switch' or b.is_cleanup(bb):
+                continue
+            si = b.switch_info(bb)
+            so = origin(b, si['op'])
+            if 'len' not in so.flags or 'duration_buf' not in so.fields:
+                continue
+            for val, tgt in si['targets'].items():
+                # the key built on that edge
+                for x in sorted(b.reachable_from(tgt)):
+                    ag = [s_['rv'] for s_ in b.stmts(x) if 'assign' in s_ and s_['rv']['k'] == 'agg' and (s_['rv'].get('adt') or '').endswith('DurationFieldNameDeserializer')]
+                    if ag:
+                        m[val] = ag[0].get('variant')
+                        break
+        ok = (m.get(12), m.get(8), m.get(4)) == ('Months', 'Days', 'Milliseconds')
+        ctx.ob('DURATION', 'key-by-remaining-length', ok, short_loc(b.span), 'remaining length -> key: %s (spec order: 12 months, 8 days, 4 milliseconds)' % {k: v for k, v in sorted(m.items()) if v})
 
 
 def same_node_delegation(b, r, toks):
